@@ -28,10 +28,13 @@ pub fn line_changes_from_diff(
             // Deleted files are ignored.
             continue;
         }
-        result.insert(
-            patched_file.target_file.trim_start_matches("b/").into(),
-            line_changes(&patched_file),
-        );
+        // Git prefixes the new path with exactly one "b/"; a directory that is itself named "b"
+        // must survive (`b/b/file` is `b/file`), so strip the prefix once, not repeatedly.
+        let target_path = patched_file
+            .target_file
+            .strip_prefix("b/")
+            .unwrap_or(&patched_file.target_file);
+        result.insert(target_path.into(), line_changes(&patched_file));
     }
     Ok(result)
 }
